@@ -1,0 +1,51 @@
+//! Verification hook (cfg ordinals_ord_verif): the explorer query parsers
+//! `query::{Block, Inscription, Rune}` are private to the server module; these
+//! thin wrappers run their `FromStr` implementations and return the result in
+//! public types. Add-only; nothing here is compiled without the cfg.
+use super::*;
+
+#[derive(Debug, PartialEq)]
+pub enum BlockQuery {
+  Height(u32),
+  Hash(BlockHash),
+}
+
+#[derive(Debug, PartialEq)]
+pub enum InscriptionQuery {
+  Id(InscriptionId),
+  Number(i32),
+  Sat(Sat),
+}
+
+#[derive(Debug, PartialEq)]
+pub enum RuneQuery {
+  Spaced(SpacedRune),
+  Id(RuneId),
+  Number(u64),
+}
+
+pub fn parse_block(s: &str) -> Result<BlockQuery, String> {
+  match s.parse::<Block>() {
+    Ok(Block::Height(height)) => Ok(BlockQuery::Height(height)),
+    Ok(Block::Hash(hash)) => Ok(BlockQuery::Hash(hash)),
+    Err(err) => Err(err.to_string()),
+  }
+}
+
+pub fn parse_inscription(s: &str) -> Result<InscriptionQuery, String> {
+  match s.parse::<Inscription>() {
+    Ok(Inscription::Id(id)) => Ok(InscriptionQuery::Id(id)),
+    Ok(Inscription::Number(number)) => Ok(InscriptionQuery::Number(number)),
+    Ok(Inscription::Sat(sat)) => Ok(InscriptionQuery::Sat(sat)),
+    Err(err) => Err(err.to_string()),
+  }
+}
+
+pub fn parse_rune(s: &str) -> Result<RuneQuery, String> {
+  match s.parse::<Rune>() {
+    Ok(Rune::Spaced(spaced_rune)) => Ok(RuneQuery::Spaced(spaced_rune)),
+    Ok(Rune::Id(id)) => Ok(RuneQuery::Id(id)),
+    Ok(Rune::Number(number)) => Ok(RuneQuery::Number(number)),
+    Err(err) => Err(err.to_string()),
+  }
+}
